@@ -1068,8 +1068,8 @@ def run(ctx) -> None:
     shards = ctx.pick(4, 16)
     ctx.enum("sub_enum", enum_small_genes(ctx.pick(3, 5), ctx.pick(1, 2)), shards=ctx.pick(8, 16))
     ctx.enum("tta_enum", enum_tta_genes(), shards=ctx.pick(8, 16))
-    ctx.hyp("sub", gene_specs(max_codons=40), max_examples=ctx.pick(800, 20000), shards=shards)
-    ctx.hyp("sub", gene_specs(max_codons=330, sampled_ranges=True), max_examples=ctx.pick(500, 15000), shards=shards)
+    ctx.hyp("sub", gene_specs(max_codons=40), max_examples=ctx.pick(800, 12000), shards=shards)
+    ctx.hyp("sub", gene_specs(max_codons=330, sampled_ranges=True), max_examples=ctx.pick(500, 9000), shards=shards)
     ctx.hyp("prepeptide", prepeptide_specs(), max_examples=ctx.pick(1200, 30000), shards=shards)
     ctx.hyp("domains", domain_specs(), max_examples=ctx.pick(600, 15000), shards=shards)
     ctx.hyp("tta", gene_specs(max_codons=40, tta=True), max_examples=ctx.pick(1000, 25000), shards=shards)
